@@ -25,6 +25,7 @@ SimNext ==
         \/ \E a \in R(LiveSet), s \in R(Slots) : AddWrite(a, s, 0)
         \/ \E k \in R(Sierra), x \in R(Compiled) : AddDeclare(k, x)
      /\ UNCHANGED <<deployed, nonce, store, declared, ctrie, cltrie, blocks>>
+  \/ Restart
   \/ EndBlock
   \/ (EndBlock /\ diff # EmptyDiff)
   \/ (EndBlock /\ diff # EmptyDiff /\ blocks >= 0)
